@@ -470,7 +470,7 @@ def oracle(plan, world, peer, waiters, term, frames_delivered, state, timeout):
             out = w["outcome"]
             if out is None or out[0] in ("noresp", "send_raised"):
                 continue
-            if w["t_send"] <= tt and w.get("t_done") is not None and w["t_done"] > tt + 1e-6:
+            if w["t_send"] <= tt and w.get("t_done") is not None and w["t_done"] > tt + 1e-4:
                 if out[0] in ("kafka_error",):
                     v("waiter_failed_late_after_connection_loss",
                       {"i": w["i"], "lag": w["t_done"] - tt, "why": term["why"] or fk})
